@@ -83,12 +83,17 @@ def case(fmt, entries, op=0, loc=0, opts=None, flt=b"", bpb=0, bilb=-1, emit=0, 
         opts = FORMAT_OPTIONS.get(fmt, b"")
     return vfmt([op, loc, fmt.encode(), opts, flt, bpb, bilb, entries, emit, poison, rmode])
 
+TREE_FORMATS = ("xar", "iso9660", "mtree", "mtree-classic", "7zip")
+
 def norm_path(p, fmt):
     if p is None:
         return None
     while p.startswith(b"./"):
         p = p[2:]
     p = p.rstrip(b"/")
+    if fmt in TREE_FORMATS:
+        while b"//" in p:        # the members of a tree have no empty path components
+            p = p.replace(b"//", b"/")
     if fmt in ("arbsd", "argnu"):
         p = p.rsplit(b"/", 1)[-1]
     return p
